@@ -31,6 +31,8 @@ type Engine struct {
 	Axioms    []string
 	SpecDefs  []string
 	RG        map[string]*RGSpec
+	exempt    map[string]bool
+	Exempted  []string
 	ContractFiles []string
 
 	globalAddr map[*ssa.Global]int
